@@ -31,7 +31,8 @@ def outline_ast(template: str, headers: list[str], values: list[str]):
     steps = [step(10, {}), step(11, {"dataTable": {"location": loc, "rows": [row(12, [template, "x"])]}}),
              step(13, {"docString": {"location": loc, "content": template, "delimiter": '"""', "mediaType": template}}),
              step(14, {"docString": {"location": loc, "content": "c", "delimiter": '"""'}})]
-    bg = {"background": {"id": "1", "location": loc, "keyword": "Background", "name": "", "description": "", "steps": [step(0, {})]}}
+    bg = {"background": {"id": "1", "location": loc, "keyword": "Background", "name": "", "description": "",
+                         "steps": [step(0, {"docString": {"location": loc, "content": template, "delimiter": "```"}})]}}
     sc = {"scenario": {"id": "20", "location": loc, "tags": [], "keyword": "Scenario Outline", "name": template, "description": "", "steps": steps,
                        "examples": [{"id": "19", "location": loc, "tags": [], "keyword": "Examples", "name": "", "description": "",
                                      "tableHeader": row(17, headers), "tableBody": [row(18, values)]}]}}
@@ -52,7 +53,7 @@ def _interp_chunk(cases):
             if strip(again) != strip(pk):
                 bad.append(dict(template=t, headers=hs, values=vs, spec=r, impl="re-used Compiler: " + str(strip(again)[0]["name"]), field="reuse"))
                 continue
-            got = dict(name=p["name"], bg=p["steps"][0]["text"], text=p["steps"][1]["text"], cell=p["steps"][2]["argument"]["dataTable"]["rows"][0]["cells"][0]["value"],
+            got = dict(name=p["name"], bg=p["steps"][0]["text"] if p["steps"][0]["argument"]["docString"]["content"] == t else "background argument changed", text=p["steps"][1]["text"], cell=p["steps"][2]["argument"]["dataTable"]["rows"][0]["cells"][0]["value"],
                        content=p["steps"][3]["argument"]["docString"]["content"], media=p["steps"][3]["argument"]["docString"].get("mediaType"),
                        nomedia="mediaType" in p["steps"][4]["argument"]["docString"])
             exp = dict(name=r, bg=t, text=r, cell=r, content=r, media=r, nomedia=False)
